@@ -49,6 +49,11 @@ def tm_accepts_word(T: TM, word: str, max_steps: int = 1000) -> Optional[bool]:
     if head == len(tape):
         tape.append(T.blank)
 
+    if q == q_accept:
+        return True
+    if q == q_reject:
+        return False
+
     for _ in range(max_steps):
         q, head = tm_do_transition(T, q, tape, head)
         if q == q_accept:
@@ -71,6 +76,8 @@ def tm_simulate_word(T: TM, word: str, max_steps: int = 1000) -> List[Tuple[Stat
     if head == len(tape):
         tape.append(T.blank)
     result.append((q, tape[:], head))
+    if q == q_accept or q == q_reject:
+        return result
 
     for _ in range(max_steps):
         q, head = tm_do_transition(T, q, tape, head)
